@@ -4,7 +4,7 @@ from ..frontend import kids, walk, qn, qtype, dtype, pos, ancestors, AnalysisBro
 from ..expr import callee, call_args, peel, Keys, Folder
 from ..callgraph import fname
 from ..table import one_var, table_of
-from ..ptrnorm import PtrNorm, build_env
+from ..ptrnorm import PtrNorm, build_env, PtrFlow
 from ..absint import AI, Observer, St, Int
 from .tables import check_month_tables, check_weekday_switches
 from .c14 import _comparator_field
@@ -121,16 +121,16 @@ def run(ctx):
         env2 = dict(env)
         if ubvar is not None and base is not None:
             env2[ubvar] = ('ptr', base[1], {'U': 1})
-        pf = PtrNorm(keys, env2)
+        flow = PtrFlow(g, keys, F.never_written, seeds={ubvar: ('ptr', base[1], {'U': 1})} if ubvar is not None and base is not None else None)
         sel = None
         for rn in g.returns:
-            for x in walk(rn.ast):
+            for x in F.walk_ident(rn.ast):
                 if x.get('kind') == 'CXXMemberCallExpr' and any(y.get('kind') == 'DeclRefExpr' and (y.get('referencedDecl') or {}).get('id') == ubvar
-                                                                for y in walk(x)):
+                                                                for y in F.walk_ident(x)):
                     a = call_args(x)
                     if len(a) == 2:
-                        sel = pf.norm(a[1])
-                        q = keys.key(a[0])
+                        sel = flow.norm_at(rn, a[1])
+                        q = F.ident_key(a[0])
         ctx.check(sel is not None and sel[0] == 'elem' and sel[2] == {'U': 1, '': -1}, 'C01-search',
                   'the entry used is the predecessor of the upper bound', ub[0],
                   'the fall-back path uses %s relative to the search result' % (sel,), construct='search:pred')
@@ -139,7 +139,7 @@ def run(ctx):
         if td is not None and kids(td):
             il = peel(kids(td)[-1])
             if il.get('kind') == 'InitListExpr':
-                qk = keys.key(kids(il)[0])
+                qk = F.ident_key(kids(il)[0])
         ctx.check(qk is not None and qk == q if sel is not None else False, 'C01-search', 'search key is the queried instant', ub[0],
                   'the search key %s is not the instant converted %s' % (qk, q if sel is not None else None), construct='search:query')
     # 400-year shift
